@@ -94,6 +94,38 @@ Cap == [
             epos |-> 4, evel |-> 4, ef |-> 3, ebox |-> 4,
             pmin |-> -999999, pmax |-> 9999999, vmin |-> -1, vmax |-> 1,
             fmax |-> 1, bmax |-> 99999999, omin |-> -999999],
+  \* H5MD (reader only; the harness generates the file through the HDF5 C API): binary doubles, a
+  \* rectangular box only (edges[3]); no step/time is read.  Four layouts of the same content:
+  \*   h5   time-dependent box (box/edges/value[T][3]), no units module
+  \*   h5s  time-independent box (dataset box/edges[3]): one box for the whole file
+  \*   h5a  as h5s, units module on and lengths stored in Angstrom (unit "A", "A ps-1")
+  \*   h5ta as h5,  units module on and lengths stored in Angstrom
+  \* The reader warns about a bead-count mismatch and goes on by design ("The number of beads from
+  \* topology will be used!"), so the mismatch clause is not exercised for these (NoMismatch).
+  h5   |-> [vel |-> TRUE,  force |-> TRUE,  fexact |-> TRUE,  box |-> "diag", step |-> FALSE, time |-> FALSE,
+            multi |-> TRUE,  append |-> FALSE, constbox |-> FALSE, top |-> FALSE,
+            names |-> FALSE, resnames |-> FALSE, types |-> "none",
+            epos |-> 7, evel |-> 7, ef |-> 4, ebox |-> 7,
+            pmin |-> -999999999, pmax |-> 999999999, vmin |-> -999999999, vmax |-> 999999999,
+            fmax |-> 999999999, bmax |-> 999999999, omin |-> -99999999],
+  h5s  |-> [vel |-> TRUE,  force |-> TRUE,  fexact |-> TRUE,  box |-> "diag", step |-> FALSE, time |-> FALSE,
+            multi |-> TRUE,  append |-> FALSE, constbox |-> FALSE, top |-> FALSE,
+            names |-> FALSE, resnames |-> FALSE, types |-> "none",
+            epos |-> 7, evel |-> 7, ef |-> 4, ebox |-> 7,
+            pmin |-> -999999999, pmax |-> 999999999, vmin |-> -999999999, vmax |-> 999999999,
+            fmax |-> 999999999, bmax |-> 999999999, omin |-> -99999999],
+  h5a  |-> [vel |-> TRUE,  force |-> TRUE,  fexact |-> TRUE,  box |-> "diag", step |-> FALSE, time |-> FALSE,
+            multi |-> TRUE,  append |-> FALSE, constbox |-> FALSE, top |-> FALSE,
+            names |-> FALSE, resnames |-> FALSE, types |-> "none",
+            epos |-> 7, evel |-> 7, ef |-> 4, ebox |-> 7,
+            pmin |-> -999999999, pmax |-> 999999999, vmin |-> -999999999, vmax |-> 999999999,
+            fmax |-> 999999999, bmax |-> 999999999, omin |-> -99999999],
+  h5ta |-> [vel |-> TRUE,  force |-> TRUE,  fexact |-> TRUE,  box |-> "diag", step |-> FALSE, time |-> FALSE,
+            multi |-> TRUE,  append |-> FALSE, constbox |-> FALSE, top |-> FALSE,
+            names |-> FALSE, resnames |-> FALSE, types |-> "none",
+            epos |-> 7, evel |-> 7, ef |-> 4, ebox |-> 7,
+            pmin |-> -999999999, pmax |-> 999999999, vmin |-> -999999999, vmax |-> 999999999,
+            fmax |-> 999999999, bmax |-> 999999999, omin |-> -99999999],
   dlph |-> [vel |-> TRUE,  force |-> TRUE,  fexact |-> TRUE,  box |-> "full", step |-> TRUE, time |-> TRUE,
             multi |-> TRUE,  append |-> FALSE, constbox |-> TRUE,  top |-> FALSE,
             names |-> FALSE, resnames |-> FALSE, types |-> "none",
@@ -108,6 +140,9 @@ Cap == [
             fmax |-> 999999999, bmax |-> 999999999, omin |-> -99999999] ]
 
 BoxClasses == {"open", "ortho", "tric"}
+H5Formats == {"h5", "h5s", "h5a", "h5ta"}
+H5Static == {"h5s", "h5a"}
+NoMismatch == H5Formats
 
 \* ---------------------------------------------------------------------------
 \* the topology handed to the writer (bead i = 1..nb)
@@ -228,6 +263,8 @@ WWrite(fr) ==
   /\ Len(cur) - base < (IF Cap[fmt].multi THEN MaxFrames ELSE 1)
   /\ (Cap[fmt].constbox /\ Len(cur) > 0) => fr.bc = cur[1].bc
   /\ fmt = "pdbx" => fr.bc = "ortho"
+  \* a time-independent box: every frame of the file has the box of the first one
+  /\ (fmt \in H5Static /\ Len(cur) > 0) => Given(fmt, fr, Len(cur) + 1, nfiles).box = cur[1].box
   /\ LET g == Given(fmt, fr, Len(cur) + 1, nfiles) IN
        /\ cur' = Append(cur, g)
        /\ h' = Append(h, [a |-> "wwrite", fr |-> g])
@@ -260,6 +297,7 @@ SrcOk(src) == /\ src \in {"new"} \cup Avail
 ROpen(delta, src) ==
   /\ phase = "written" /\ nb + delta >= 1
   /\ delta # 0 => nb >= 1      \* an empty frame against a non-empty topology is not specified
+  /\ delta # 0 => fmt \notin NoMismatch
   /\ SrcOk(src)
   /\ phase' = "reading" /\ rn' = nb + delta
   /\ started' = FALSE /\ failed' = FALSE /\ rpos' = 0 /\ extra' = 0
@@ -289,7 +327,7 @@ RNext ==
 \* the next frame is offered a topology with a different bead count
 RNextMismatch(delta) ==
   /\ phase = "reading" /\ started /\ ~failed /\ rpos < Len(file)
-  /\ delta # 0 /\ nb + delta >= 1
+  /\ delta # 0 /\ nb + delta >= 1 /\ fmt \notin NoMismatch
   /\ failed' = TRUE /\ rn' = nb + delta
   /\ h' = Append(h, [a |-> "rnextmis", rn |-> nb + delta, err |-> TRUE])
   /\ UNCHANGED <<fmt, nb, hv, hf, phase, base, cur, file, nfiles, started, rpos, extra>>
